@@ -166,12 +166,29 @@ def bounds(tier: str, params: Any) -> dict:
     return {"M": 2, "S": 3, "R": 1 if params[0] == "trio" else 0}
 
 
+# real-logger variants: header values are octets, not text - one request and one response header carry a byte that
+# is not UTF-8 (obs-text, legal in HTTP/1.1 and HTTP/2); the access-log atoms have to cope
+OBS_REQ = [(b"x-name", b"Caf\xe9")]
+OBS_RESP = (b"x-tag", b"na\xefve")
+
+
+def _obs(prog: list) -> list:
+    out = []
+    for op in prog:
+        if op[0] == "send" and op[1].get("type") in ("http.response.start", "websocket.accept"):
+            op = ("send", dict(op[1], headers=list(op[1].get("headers", [])) + [OBS_RESP]))
+        out.append(op)
+    return out
+
+
 def build(params: Any) -> tuple:
     engine, carrier, app, fault = params[:4]
     sources = []
     conn = {"carrier": carrier}
+    real = params[4:] in (("reallog",), ("statsd",))
+    xh = OBS_REQ if real else []
     if carrier == "h1":
-        req = h1_request(b"POST", b"/x", body=b"hello")
+        req = h1_request(b"POST", b"/x", xh, body=b"hello")
         client = [("data", 0, req[:25]), ("data", 0, req[25:])]
         conn["methods"] = [b"POST"]
         apps = {"http": HTTP_APPS[app]}
@@ -193,17 +210,17 @@ def build(params: Any) -> tuple:
     elif carrier == "h2":
         conn.update(tls=True, alpn="h2")
         client = [("cmd", 0, "preface"),
-                  ("cmd", 0, "headers", 1, h2_request_headers(b"POST", b"/x"), False),
+                  ("cmd", 0, "headers", 1, h2_request_headers(b"POST", b"/x", extra=xh), False),
                   ("cmd", 0, "datan", 1, b"hello", True),
                   ("cmd", 0, "headers", 3, h2_request_headers(b"GET", b"/y"), True)]
         apps = {"http:/x": HTTP_APPS[app], "http:/y": [("recv_body",), ("send", START), ("send", B1), ("send", B2),
                                                        ("recv_until_disconnect",)]}
     elif carrier == "ws/h1":
-        client = [("data", 0, ws_h1_handshake(b"/w")), ("data", 0, ws_frame(OP_TEXT, b"yo"))]
+        client = [("data", 0, ws_h1_handshake(b"/w", xh)), ("data", 0, ws_frame(OP_TEXT, b"yo"))]
         apps = {"websocket": WS_APPS[app]}
     else:
         conn.update(tls=True, alpn="h2")
-        client = [("cmd", 0, "preface"), ("cmd", 0, "ws_open", 1), ("cmd", 0, "headers", 1, ws_h2_headers(b"/w"), False),
+        client = [("cmd", 0, "preface"), ("cmd", 0, "ws_open", 1), ("cmd", 0, "headers", 1, ws_h2_headers(b"/w", xh), False),
                   ("cmd", 0, "ws_data", 1, ws_frame(OP_TEXT, b"yo"))]
         apps = {"websocket": WS_APPS[app]}
     fault_src = []
@@ -230,9 +247,11 @@ def build(params: Any) -> tuple:
     }
     if params[4:] == ("ylog",):
         sc["logger_base"] = YieldingLoggerTrio if engine == "trio" else YieldingLoggerAsyncio
-    elif params[4:] == ("reallog",):
+    if real:
+        sc["apps"] = {k: _obs(v) for k, v in apps.items()}
+    if params[4:] == ("reallog",):
         sc["logger"] = "real"
-        sc["config"]["access_log_format"] = '%(h)s %(S)s "%(R)s" %(s)s %(st)s %(b)s "%(f)s" "%(a)s" %(D)s %({host}i)s %({content-length}o)s'
+        sc["config"]["access_log_format"] = '%(h)s %(S)s "%(R)s" %(s)s %(st)s %(b)s "%(f)s" "%(a)s" %(D)s %({host}i)s %({content-length}o)s %({x-name}i)s %({x-tag}o)s'
     elif params[4:] == ("statsd",):
         sc["logger"] = "statsd"
         sc["config"]["statsd_prefix"] = "hc"
